@@ -548,6 +548,9 @@ SPECIALISE_CASES_3 = [
     ('g_dispatch_dict', [('a', [1, 2]), ('b', [1, 2]), ('c', [1, 2])]),
     ('g_rows', [((True, False), ('x', 'y')), ((True, True), ('', 'y'))]),
 ]
+SPECIALISE_CASES_4 = [
+    ('g_count_discarded', [((), ('w1', 'w2')), (('e',), ())]),
+]
 
 
 class Sorter:
@@ -703,3 +706,21 @@ def f_pure_imports():
     runs = tuple((c, sum(1 for _ in run)) for (c, run) in groupby('aaabccdd'))
     pairs = sorted(((name, pos) for pos, name in enumerate('zxy')), key=itemgetter(0))
     return runs, pairs, list(chain([1], (2, 3))), itemgetter(1)(('a', 'b'))
+
+
+class Reporter:
+    def __init__(self):
+        self.log = []
+
+    def _report(self, label, msgs):
+        n = 0
+        for m in msgs:
+            self.log.append('%s: %s' % (label, m))
+            n += 1
+        return n
+
+    def g_count_discarded(self, errors, warnings):
+        n_errors = 0
+        n_errors += self._report('E', errors)
+        self._report('W', warnings)
+        return n_errors == 0
